@@ -184,7 +184,8 @@ def run(rep: Report, repo: Repo):
                         f'prefix {p!r} must select {exp} for 4/3/2 connected inputs, table has {names}', node=knode)
 
     check_arity_selection(rep, simmod, init, rows, luts, weights)
-    check_wiring(rep, simmod, init, sites)
+    if not translation_evaluated(rep, simmod, init, rows):
+        check_wiring(rep, simmod, init, sites)
 
     # ---- the 2-valued chains
     lmod, chains = chains_2v(repo)
@@ -387,6 +388,64 @@ def check_arity_selection(rep, simmod, init, rows, luts, weights):
 
 
 # --------------------------------------------------------------------------- operand wiring
+
+def translation_evaluated(rep, simmod, init, rows):
+    """C01.wiring / C01.arity decided by evaluating the constructor's own translation loop (Engine M) on stand-in nodes:
+    every interface / fork / cell shape with up to 4 input and 3 output pins, each connected or not. Returns False when the
+    loop is outside the evaluator subset (the structural forms of the rules are used then)."""
+    import itertools
+    rep.rule('C01.wiring', 'op tuple: column k+2 is input pin k (zero line if unconnected), column 1 the output line; '
+                           'interface nodes emit BUF1/INV1 from ppi_offset + s_nodes position')
+    kinds = ['AND', 'nand2_x1', 'NOR4', 'XOR3', 'AO21X1', 'aoi211', 'OA22', 'MUX21', 'INV_X1', 'BUF', 'Nbuff', 'ibuff', 'xyz_unknown', '__const1__']
+    cases = []
+    pin_pats = [p for n in range(0, 5) for p in itertools.product((True, False), repeat=n)]
+    for kind in kinds:
+        for ins in pin_pats:
+            for outs in ((), (True,), (False,), (True, True)):
+                cases.append(dict(kind=kind, ins=ins, outs=outs, s_pos=None, strip_forks=False))
+    for sf in (False, True):
+        for ins in ((), (True,), (False,), (True, True)):
+            for outs in [p for n in range(0, 4) for p in itertools.product((True, False), repeat=n)]:
+                cases.append(dict(kind='__fork__', ins=ins, outs=outs, s_pos=None, strip_forks=sf))
+    for kind in ('input', 'DFF_X1', 'sdffar', 'LATCH', '__fork__', 'AND2', 'dlatch'):
+        for outs in [p for n in range(0, 4) for p in itertools.product((True, False), repeat=n)]:
+            for ins in ((), (True,)):
+                for pos in (0, 3):
+                    cases.append(dict(kind=kind, ins=ins, outs=outs, s_pos=pos, strip_forks=False))
+    try:
+        res = simops.evaluate_translation(init, rows, cases)
+    except ModelError as e:
+        rep.note(f'C01.wiring: translation loop outside the evaluator subset ({e}); structural rules used')
+        return False
+    bad = None
+    nbad = 0
+    for case, got in res:
+        want = simops.expected_translation(case, rows)
+        if got != want:
+            nbad += 1
+            if bad is None:
+                bad = (case, got, want)
+    ok = bad is None
+    rep.ob('C01.wiring', f'node -> op translation evaluated on {len(res)} stand-in nodes', ok, evals=len(res),
+           sample={'rule': 'C01.wiring', 'cases': len(res), 'ok': ok})
+    if not ok:
+        case, got, want = bad
+        what = 'port/state element at s position %d' % case['s_pos'] if case['s_pos'] is not None else ('fork' if case['kind'] == '__fork__' else 'cell')
+        rep.violate('C01.wiring', simmod, init, f'translation of a {what} of kind {case["kind"]!r}',
+                    f'SimOps.__init__: for a {what} of kind {case["kind"]!r} with input pins connected {[int(x) for x in case["ins"]]}, output pins connected '
+                    f'{[int(x) for x in case["outs"]]}, strip_forks={case["strip_forks"]} the constructor emits {got} but the netlist semantics need {want} '
+                    f'(lut, output line, 4 operand lines, accumulation row; 900 = zero line, 901 = scratch, 1000+p = input slot of s position p); {nbad} of {len(res)} shapes differ',
+                    witness={'case': {k: (list(v) if isinstance(v, tuple) else v) for k, v in case.items()}, 'got': str(got), 'want': str(want)}, node=simops.translation_loop(init))
+    return True
+
+
+def wiring_rules(rep, repo):
+    """C01.wiring for checks that include it through depends(): evaluated translation, structural form as fall-back."""
+    rows, _kp = simtab.kind_prefixes(repo)
+    simmod, init = simops.simops_init(repo)
+    if not translation_evaluated(rep, simmod, init, rows):
+        check_wiring(rep, simmod, init, simops.op_sites(init))
+
 
 def check_wiring(rep, simmod, init, sites):
     rep.rule('C01.wiring', 'op tuple: column k+2 is input pin k (zero line if unconnected), column 1 the output line; '
